@@ -144,7 +144,8 @@ Section Hist.
   (* one call: the files afterwards hold the next abstract state *)
   Lemma ps_call_run : forall cl A s,
     ps_abs_wf A -> ps_call_wf cl -> (ps_abs_size A < fuel)%nat -> ps_holdsA s A ->
-    ps_holdsA (snd (ps_run pol (ps_call_prog cl) s)) (ps_abs_call cl A).
+    ps_holdsA (snd (ps_run pol (ps_call_prog cl) s)) (ps_abs_call cl A) /\
+    fst (ps_run pol (ps_call_prog cl) s) <> PS_FUEL.
   Proof.
     intros cl [d o c] s (Hd & Ho & Hc) Hw Hsz (Vd & Vo & Vc).
     unfold ps_abs_size in Hsz. cbn [ab_dyn ab_obs ab_cnt] in *.
@@ -155,13 +156,13 @@ Section Hist.
       + destruct o; [exact Ho|constructor].
       + destruct o; cbn [ps_optlen] in Hsz; cbn [length]; lia.
       + apply ps_holds_of. exact Vo.
-      + rewrite Hr. cbn [snd]. rewrite ?(Hoth PS_DYN), ?(Hoth PS_OBS), ?(Hoth PS_CNT) by discriminate. split; [exact Vd|]. split; [|exact Vc].
+      + rewrite Hr. cbn [fst snd]. split; [|unfold PS_FUEL; lia]. rewrite ?(Hoth PS_DYN), ?(Hoth PS_OBS), ?(Hoth PS_CNT) by discriminate. split; [exact Vd|]. split; [|exact Vc].
         rewrite Hv. destruct o; reflexivity.
     - destruct o as [l|].
       + destruct (ps_obs_deleted_correct pol la lt fuel key l s) as (s' & Hr & Hv & Hoth);
           try assumption; [cbn [ps_optlen] in Hsz; lia|].
-        rewrite Hr. cbn [snd]. rewrite ?(Hoth PS_DYN), ?(Hoth PS_OBS), ?(Hoth PS_CNT) by discriminate. split; [exact Vd|]. split; [exact Hv|exact Vc].
-      + rewrite (ps_obs_deleted_missing pol la lt fuel key s Vo). cbn [snd ps_rem option_map].
+        rewrite Hr. cbn [fst snd]. split; [|unfold PS_FUEL; lia]. rewrite ?(Hoth PS_DYN), ?(Hoth PS_OBS), ?(Hoth PS_CNT) by discriminate. split; [exact Vd|]. split; [exact Hv|exact Vc].
+      + rewrite (ps_obs_deleted_missing pol la lt fuel key s Vo). cbn [fst snd ps_rem option_map]. split; [|unfold PS_FUEL; lia].
         split; [exact Vd|]. split; [exact Vo|exact Vc].
     - destruct Hw as [Hn Hv0].
       destruct (ps_cnt_track_correct pol fuel name v (match c with Some l => l | None => [] end) s)
@@ -169,26 +170,26 @@ Section Hist.
       + destruct c; [exact Hc|constructor].
       + destruct c; cbn [ps_optlen] in Hsz; cbn [length]; lia.
       + apply ps_holds_of. exact Vc.
-      + rewrite Hr. cbn [snd]. rewrite ?(Hoth PS_DYN), ?(Hoth PS_OBS), ?(Hoth PS_CNT) by discriminate. split; [exact Vd|]. split; [exact Vo|].
+      + rewrite Hr. cbn [fst snd]. split; [|unfold PS_FUEL; lia]. rewrite ?(Hoth PS_DYN), ?(Hoth PS_OBS), ?(Hoth PS_CNT) by discriminate. split; [exact Vd|]. split; [exact Vo|].
         rewrite Hv, (ps_cnt_track_entry name v _ Hn Hv0). destruct c; reflexivity.
     - destruct c as [l|].
       + destruct (ps_cnt_deleted_correct pol fuel name l s) as (s' & Hr & Hv & Hoth);
           try assumption; [cbn [ps_optlen] in Hsz; lia|].
-        rewrite Hr. cbn [snd]. rewrite ?(Hoth PS_DYN), ?(Hoth PS_OBS), ?(Hoth PS_CNT) by discriminate. split; [exact Vd|]. split; [exact Vo|exact Hv].
-      + rewrite (ps_cnt_deleted_missing pol fuel name s Vc). cbn [snd ps_rem option_map].
+        rewrite Hr. cbn [fst snd]. split; [|unfold PS_FUEL; lia]. rewrite ?(Hoth PS_DYN), ?(Hoth PS_OBS), ?(Hoth PS_CNT) by discriminate. split; [exact Vd|]. split; [exact Vo|exact Hv].
+      + rewrite (ps_cnt_deleted_missing pol fuel name s Vc). cbn [fst snd ps_rem option_map]. split; [|unfold PS_FUEL; lia].
         split; [exact Vd|]. split; [exact Vo|exact Vc].
     - destruct (ps_dyn_added_correct pol fuel a (match d with Some l => l | None => [] end) s)
         as (s' & Hr & Hv & Hoth); try assumption.
       + destruct d; [exact Hd|constructor].
       + destruct d; cbn [ps_optlen] in Hsz; cbn [length]; lia.
       + apply ps_holds_of. exact Vd.
-      + rewrite Hr. cbn [snd]. rewrite ?(Hoth PS_DYN), ?(Hoth PS_OBS), ?(Hoth PS_CNT) by discriminate. split; [|split; [exact Vo|exact Vc]].
+      + rewrite Hr. cbn [fst snd]. split; [|unfold PS_FUEL; lia]. rewrite ?(Hoth PS_DYN), ?(Hoth PS_OBS), ?(Hoth PS_CNT) by discriminate. split; [|split; [exact Vo|exact Vc]].
         rewrite Hv. destruct d; reflexivity.
     - destruct d as [l|].
       + destruct (ps_dyn_deleted_correct pol fuel name l s) as (s' & Hr & Hv & Hoth);
           try assumption; [cbn [ps_optlen] in Hsz; lia|].
-        rewrite Hr. cbn [snd]. rewrite ?(Hoth PS_DYN), ?(Hoth PS_OBS), ?(Hoth PS_CNT) by discriminate. split; [exact Hv|]. split; [exact Vo|exact Vc].
-      + rewrite (ps_dyn_deleted_missing pol fuel name s Vd). cbn [snd ps_rem option_map].
+        rewrite Hr. cbn [fst snd]. split; [|unfold PS_FUEL; lia]. rewrite ?(Hoth PS_DYN), ?(Hoth PS_OBS), ?(Hoth PS_CNT) by discriminate. split; [exact Hv|]. split; [exact Vo|exact Vc].
+      + rewrite (ps_dyn_deleted_missing pol fuel name s Vd). cbn [fst snd ps_rem option_map]. split; [|unfold PS_FUEL; lia].
         split; [exact Vd|]. split; [exact Vo|exact Vc].
   Qed.
 
@@ -246,7 +247,7 @@ Section Hist.
     - inversion Hw as [|? ? Hw1 Hw2]; subst. cbn [ps_calls_prog]. rewrite ps_runk_bind.
       cbn [length] in Hsz.
       destruct (ps_abs_call_wf cl A HA Hw1) as [HA1 Hsz1].
-      pose proof (ps_call_run cl A s HA Hw1 ltac:(lia) Hh) as Hh1.
+      pose proof (proj1 (ps_call_run cl A s HA Hw1 ltac:(lia) Hh)) as Hh1.
       destruct (k <=? ps_nops (ps_call_prog cl) s)%nat.
       + (* inside the first call: before or after it *)
         destruct (ps_atomic1 pol Z (ps_call_prog cl) (ps_call_prog_d1 cl) s Hs k) as [Hv|Hv].
